@@ -28,6 +28,11 @@ use optimize::optimize_runs;
 use run::Ranged;
 use std::{ops::Deref, sync::Arc};
 
+#[cfg(feature = "verif_hooks")]
+pub fn optimize_runs_verif<T: Clone + Ranged>(runs: Vec<Run<T>>) -> Vec<Run<T>> {
+    optimize_runs(runs)
+}
+
 pub const DEFAULT_LEVEL_COUNT: u8 = 7;
 
 /// Monotonically increasing ID of a version.
